@@ -173,7 +173,14 @@ func init() {
 						fmt.Fprintf(os.Stderr, "DEBUG grouped %v env=%d\n", cfg.Groups, nenv)
 					}
 				}()
-				hx.EnvRuns(opts, func() { rb = cfg.buildGroups() }, func(choices []int32) {
+				var failure string
+				hx.EnvRuns(opts, func() { rb, failure = cfg.buildGroups() }, func(choices []int32) {
+					if failure != "" {
+						cc := cfg
+						cc.Env = append([]int32{}, choices...)
+						c.Res.Report("C04", "model", cc, nil, []hx.Finding{{Sig: "c04:grouped-build-panicked", Msg: failure + fmt.Sprintf("\n  groups=%v env=%v", cfg.Groups, choices)}})
+						return
+					}
 					nenv++
 					if os.Getenv("HX_DEBUG") != "" {
 						fmt.Fprintf(os.Stderr, "DEBUG env %v sortrules=%d entities=%d\n", choices, len(rb.Kc.SortRules), len(rb.Kc.RuleEntities))
